@@ -65,6 +65,44 @@ R1_ALLOWED_CALLS = {
 }
 
 
+FEATURES = {"serial", "tls", "enable-tls", "default"}   # the default build of rodbus (R7)
+
+
+def cfg_eval(c):
+    """evaluate the inside of #[cfg(...)] for the default feature set; test / kani are off"""
+    c = c.strip()
+    m = re.fullmatch(r'feature="([^"]+)"', c)
+    if m:
+        return m.group(1) in FEATURES
+    if c in ("test", "kani", "miri"):
+        return False
+    for op in ("not", "any", "all"):
+        if c.startswith(op + "(") and c.endswith(")"):
+            inner = c[len(op) + 1:-1]
+            parts, depth, cur = [], 0, ""
+            for ch in inner:
+                if ch == "(":
+                    depth += 1
+                if ch == ")":
+                    depth -= 1
+                if ch == "," and depth == 0:
+                    parts.append(cur)
+                    cur = ""
+                else:
+                    cur += ch
+            if cur.strip():
+                parts.append(cur)
+            vals = [cfg_eval(x) for x in parts]
+            if op == "not":
+                return not vals[0]
+            return any(vals) if op == "any" else all(vals)
+    raise Unsupported(f"cannot evaluate cfg({c})")
+
+
+def cfg_on(cfgs):
+    return all(cfg_eval(c) for c in cfgs)
+
+
 class AnchorLost(Exception):
     pass
 
@@ -98,11 +136,28 @@ def spans_of(relfile):
 def find_item(relfile, kind, path):
     src, idx, _ = spans_of(relfile)
     got = idx.get((kind, path))
+    if got:
+        got = [g for g in got if cfg_on(g.get("cfg", []))]
     if not got:
-        raise AnchorLost(f"{kind} `{path}` not found in {relfile}")
+        raise AnchorLost(f"{kind} `{path}` not found in {relfile} (or compiled out by cfg)")
     if len(got) > 1:
         raise AnchorLost(f"{kind} `{path}` is ambiguous in {relfile} ({len(got)} matches)")
     return src, got[0]
+
+
+def split_hint(text):
+    """-> (raw, proof): `broadcast use ...;` statements must stay at block level, the rest goes into proof { }"""
+    raw, pr = [], []
+    for part in re.split(r"(?<=;)\s*", text.strip()):
+        if not part.strip():
+            continue
+        (raw if part.strip().startswith("broadcast use") else pr).append(part.strip())
+    out = ""
+    if raw:
+        out += " " + " ".join(raw) + " "
+    if pr:
+        out += " proof { " + " ".join(pr) + " } "
+    return out
 
 
 class Edit:
@@ -146,6 +201,24 @@ class Renderer:
         """render sub-span [s,e) of `edit` (edits nested in it apply, the edit itself does not)"""
         sub = Renderer(self.src, [x for x in self.edits if x is not edit and x.s >= s and x.e <= e])
         return sub.render(s, e)
+
+
+def cfg_node_edits(src, nodes, log):
+    """delete nodes (variants, fields, match arms, statements) whose #[cfg] is off in the default build"""
+    out = []
+    for nd in nodes:
+        if cfg_on(nd["cfg"]):
+            continue
+        s0, e0 = nd["span"]
+        # swallow a trailing comma (enum variants / fields are separated by commas outside their span)
+        j = e0
+        while src[j:j + 1] in (b" ", b"\t", b"\n", b"\r"):
+            j += 1
+        if src[j:j + 1] == b",":
+            e0 = j + 1
+        out.append(Edit(s0, e0, lambda r: ""))
+        log(s0, "cfg(" + ",".join(nd["cfg"]) + ") is off: node removed")
+    return out
 
 
 def audit_r1(args, where):
@@ -211,6 +284,9 @@ class Unit:
                 edits.append(Edit(v[0], v[1], lambda r: "pub"))
             for p in it["pub_insert"]:
                 edits.append(Edit(p, p, lambda r: "pub "))
+        cedits = cfg_node_edits(src, it.get("cfg_nodes", []), lambda pos, note: self.log("R7", relfile, src, pos, note))
+        # attribute edits nested in a removed node are dropped with it
+        edits = [x for x in edits if not any(c.s <= x.s and x.e <= c.e for c in cedits)] + cedits
         r = Renderer(src, edits)
         body = r.render(s, e)
         derives = opts.get("derive")
@@ -225,7 +301,31 @@ class Unit:
             self.log("R7", relfile, src, s, f"attributes/doc comments of {path} stripped; derives kept: {derives}")
         if "keepvis" not in opts:
             self.log("R9", relfile, src, s, f"{path}: visibility -> pub")
-        text = head + body.lstrip("\n")
+        if "execconst" in opts:
+            m = re.match(r"^\s*(pub\s+)?const\s+(\w+)\s*:\s*(.+?)\s*=\s*(.*);\s*$", body, re.S)
+            if not m:
+                raise Unsupported(f"{relfile}:{path}: execconst on something that is not `const N: T = E;`")
+            ens = f" ensures {opts['execconst']}" if opts["execconst"].strip() else ""
+            body = f"pub exec const {m.group(2)}: {m.group(3)}{ens} {{ {m.group(4)} }}"
+            self.log("R12", relfile, src, s, f"const {path} = <call>; emitted as `exec const` with a proved `ensures` (Verus consts are dual-mode and cannot call exec functions)")
+        tail_txt = ""
+        if "structeq" in opts:
+            # R13: derive(PartialEq) -> its structural expansion, with the vstd spec companion
+            if "PartialEq" not in it["derives"]:
+                raise Unsupported(f"{relfile}:{path}: structeq requested but the item does not derive PartialEq")
+            derives = [d for d in derives if d not in ("PartialEq", "Eq")]
+            head = f"#[derive({', '.join(derives)})]\n" if derives else ""
+            name = path.split("::")[-1]
+            fields = re.findall(r"pub\s+(\w+)\s*:", body)
+            if it["kind"] != "struct" or not fields:
+                raise Unsupported(f"{relfile}:{path}: structeq supports structs with named fields only")
+            spec_eq = " && ".join(f"self.{f} == other.{f}" for f in fields)
+            tail_txt = (f"\nimpl vstd::std_specs::cmp::PartialEqSpecImpl for {name} {{\n"
+                        f"    open spec fn obeys_eq_spec() -> bool {{ true }}\n"
+                        f"    open spec fn eq_spec(&self, other: &Self) -> bool {{ {spec_eq} }}\n}}\n"
+                        f"impl PartialEq for {name} {{ fn eq(&self, other: &Self) -> bool {{ {spec_eq} }} }}\n")
+            self.log("R13", relfile, src, s, f"derive(PartialEq) on {path} replaced by its field-wise expansion (Verus gives derived PartialEq no specification)")
+        text = head + body.lstrip("\n") + tail_txt
         # strip blank lines left by removed attributes
         text = re.sub(r"\n[ \t]*\n([ \t]*\n)+", "\n\n", text)
         self.emit(text + "\n", {"kind": "item", "file": relfile, "path": path, "line": line_of(src, s)})
@@ -342,7 +442,7 @@ class Unit:
                         pat = r.text(ps, pe)
                         itx = r.render_inside(ed, is_, ie)
                         bodytxt = r.render_inside(ed, lbs + 1, lbe - 1)
-                        sh = f" proof {{ {start_hint} }}" if start_hint.strip() else ""
+                        sh = split_hint(start_hint) if start_hint.strip() else ""
                         eh = f" proof {{ {end_hint} }}" if end_hint.strip() else ""
                         vc = f" proof {{ {vac} }}" if vac else ""
                         af = f" proof {{ {after} }}" if after.strip() else ""
@@ -354,7 +454,7 @@ class Unit:
                     if inv.strip():
                         edits.append(Edit(lbs, lbs, lambda r, inv=inv: "\n" + inv))
                     if start_hint.strip() or vac:
-                        txt = f" proof {{ {vac}{start_hint} }} "
+                        txt = (f" proof {{ {vac} }} " if vac else "") + split_hint(start_hint)
                         edits.append(Edit(lbs + 1, lbs + 1, lambda r, txt=txt: txt))
                     if end_hint.strip():
                         edits.append(Edit(lbe - 1, lbe - 1, lambda r, end_hint=end_hint: f" proof {{ {end_hint} }} "))
@@ -372,7 +472,7 @@ class Unit:
                 if vac:
                     txt += f" proof {{ {vac} }} "
                 if entry.strip():
-                    txt += f"\n{entry}"
+                    txt += split_hint(entry)
                 edits.append(Edit(bs + 1, bs + 1, lambda r, txt=txt: txt, prio=-1))
             # exits
             exits = [x["span"] for x in it["returns"] if not x["in_closure"]]
@@ -394,6 +494,8 @@ class Unit:
                     if k >= lim:
                         raise AnchorLost(f"{where}: template refers to {kind} {k} but the function has only {lim}")
 
+        cedits = cfg_node_edits(src, it.get("cfg_nodes", []), lambda pos, note: self.log("R7", relfile, src, pos, note))
+        edits = [x for x in edits if not any(c.s <= x.s and x.e <= c.e for c in cedits)] + cedits
         r = Renderer(src, edits)
         attr = opts.get("attr", "")
         head = ""
@@ -470,6 +572,8 @@ class Unit:
                 for f in fields[2:]:
                     if f.startswith("attr="):
                         opts["attr"] = f[5:]
+                    elif f.startswith("execconst"):
+                        opts["execconst"] = f[10:] if f.startswith("execconst=") else ""
                     elif f.startswith("sub="):
                         opts.setdefault("subs", []).append(tuple(f[4:].split("=>", 1)))
                     else:
